@@ -9,15 +9,17 @@ _Engine = Engine
 Engine = _ft.partial(_Engine, iter_adapters=False)
 
 EXPLANATION = (
-    "Static clauses: (R1) every path of the two input entry points that rejects (Err(InvalidMove)) has called no "
-    "mutator of the board or the history - only the (board-neutral, C04.R4) generators; (R2) every function that "
-    "plays a move on the game's board records it in the history with the same move on exactly its Ok paths; (R3) the "
-    "move played is the first element of the generator's list matching the typed (from,to) pair resp. the typed "
-    "label, and the queen is the first promotion generated, so a coordinate pair naming a promotion plays the queen; "
-    "(R4) input language: every label the SAN writer can produce (regular language rebuilt from the writer's own "
-    "constants and structure) is accepted by the command-line's notation pattern, none is mistaken for a coordinate "
-    "pair, and the captured group handed to the game is the whole label; (R5) typed coordinates are converted with "
-    "square_string_to_bitboard (table checked under C19.R1). 'Accepted iff legal' as such is NOT decided (C01, C13).")
+    'Static clauses: (R1) every path of the two input entry points that rejects (Err(InvalidMove)) has called no mutator of the board '
+    "or the history - only the (board-neutral, C04.R4) generators; (R2) every function that plays a move on the game's board records it"
+    " in the history with the same move on exactly its Ok paths; (R3) the move played is the first element of the generator's list "
+    'matching the typed (from,to) pair resp. the typed label, and the queen is the first promotion generated, so a coordinate pair '
+    'naming a promotion plays the queen; (R4) input language: every label the SAN writer can produce (regular language rebuilt from the'
+    " writer's own constants and structure) is accepted by the command-line's notation pattern, none is mistaken for a coordinate pair,"
+    ' and the captured group handed to the game is the whole label; (R5) typed coordinates are converted with square_string_to_bitboard'
+    " (table checked under C19.R1). 'Accepted iff legal' as such is NOT decided (C01, C13). R1/R3 accept the first-match search as "
+    'Iterator::find, as a helper function written as a first-match loop (finder summary), or as a for loop of the entry point itself '
+    '(non-matching iterations without effects, exhaustion = Err(InvalidMove)).'
+)
 ASSUMPTIONS = [
     "a pawn move that does not capture is never ambiguous (two pawns of one colour reach the same square only by capturing)",
     "regex crate semantics for the subset of syntax used; Iterator::find returns the first match",
